@@ -205,10 +205,10 @@ def revolute_float(ctx, rng):
                         Wlu = np.asarray(joint.W_l(0.0, q)).ravel() @ u
                         E = law.E_pot(0.0, q)
                         bad = []
-                        if abs(ld - om) > 1e-10: bad.append(f"l_dot {ld} is not the relative angular velocity {om}")
-                        if abs(Wlu - ld) > 1e-10: bad.append(f"W_l^T u = {Wlu} != l_dot = {ld}")
-                        if abs(la - exp_la) > 1e-10: bad.append(f"la_c = {la}, law gives {exp_la}")
-                        if abs(E - 0.5 * k * (l - law.l_ref) ** 2) > 1e-10: bad.append("E_pot is not k e^2/2")
+                        if not (abs(ld - om) <= 1e-10): bad.append(f"l_dot {ld} is not the relative angular velocity {om}")
+                        if not (abs(Wlu - ld) <= 1e-10): bad.append(f"W_l^T u = {Wlu} != l_dot = {ld}")
+                        if not (abs(la - exp_la) <= 1e-10): bad.append(f"la_c = {la}, law gives {exp_la}")
+                        if not (abs(E - 0.5 * k * (l - law.l_ref) ** 2) <= 1e-10): bad.append("E_pot is not k e^2/2")
                         if compliance and abs(np.asarray(law.c(0.0, q, u, np.array([la]))).ravel()[0]) > 1e-10: bad.append("compliance residual does not vanish at the force-form force")
                         dissip = la * Wlu + k * (l - law.l_ref) * ld
                         if dissip > 1e-10: bad.append(f"power + energy rate = {dissip} > 0")
@@ -267,7 +267,7 @@ def system_epot(ctx, rng, quats):
                 hload = np.zeros(system.nu); hload[load.uDOF] = load.h(system.t0, system.q0[load.qDOF], u[load.uDOF])
                 eps = 1e-3
                 dE = (load.E_pot(system.t0, (system.q0 + eps * qd)[load.qDOF]) - load.E_pot(system.t0, (system.q0 - eps * qd)[load.qDOF])) / (2 * eps)
-                if abs(hload @ u + dE) > 1e-9 * (1 + abs(dE)):
+                if not (abs(hload @ u + dE) <= 1e-9 * (1 + abs(dE))):
                     ctx.violation("Force_line_distributed:power", f"{name}: h.u = {hload @ u} but -dE_pot/dt = {-dE}", {"system": name})
             out[name] = "value"
         except Exception as ex:
